@@ -9,9 +9,13 @@ RULE = ("scenarios from the grammar in harness/scen.py (1-2 connectors, 1-6 vehi
         "times), every strategy; the real Scenario.run is executed with a run-time trace; non-trivial = the run "
         "reported at least one step; distinct = distinct (seed, index, strategy)")
 ASSUMPTIONS = ["limit tolerance is the code's own EPS = 1e-5 kW",
-               "sentence 2 is judged only at steps where fixed load and generation alone respect the limit"]
-UNPROVED = ["C04(c) 'no strategy's decisions break the limit' has no theorem for the strategies whose allocation "
-            "is not modelled in Lean; it is decided by the oracle on real runs of all eight strategies"]
+               "sentence 2 is judged only at steps where fixed load and generation alone respect the limit",
+               "every run also carries the step-level tie of its strategy: the world before each strategy step is rendered for the Lean model of that strategy class, and commands, connector loads, station powers and SoCs after the real step are compared bit for bit"]
+UNPROVED = ["the whole-step limit theorems are about the strategy models over an ideal battery contract (BatLaw etc., see "
+            "DESIGN I.3); theorems named _partial exclude: V2G-capable vehicles for balanced_market and for the feed-in "
+            "side of schedule (collective, inside the core standing time); a generation surplus together with stationary "
+            "batteries for peak_load_window; float rounding (needy shares of flex_window)",
+            "limit = min(rating, latest signal) and the run-level sentence 2 are decided by the oracle on real runs"]
 compare = runcheck.compare
 
 
